@@ -269,6 +269,38 @@ def factory_case(cid, which, rng):
                     if np.array_equal(H[a], H[b]):
                         okk = okk and bool(np.allclose(E[r_], 1.0 + 2.0 * (H[a][:, None] * u).sum(0), atol=1e-9))
                 case["dataok"] = bool(okk)
+            elif which in ("uc2.from_pgmat_gpmod", "uc3.from_pgmat_gpmod"):
+                # usefulness criterion of every candidate cross = expected progeny mean (parents weighted by their Mendelian shares:
+                # 1/2, 1/2 for a two-way cross; 1/2 for the recurrent parent and 1/4, 1/4 for a three-way cross) + intensity * sqrt of
+                # the progeny variance the variance-matrix factory reports for that cross (that matrix is the subject of C12)
+                import importlib, scipy.stats
+                from pybrops.popgen.gmat.DensePhasedGenotypeMatrix import DensePhasedGenotypeMatrix
+                from pybrops.popgen.gmap.HaldaneMapFunction import HaldaneMapFunction
+                K = 2 if which.startswith("uc2") else 3
+                way = "TwoWay" if K == 2 else "ThreeWay"
+                fname = "Dense%sDHAdditiveGeneticVarianceMatrixFactory" % way
+                F = getattr(importlib.import_module("pybrops.model.vmat.fcty." + fname), fname)
+                cls = get("UsefulnessCriterionSelectionProblem", "UsefulnessCriterionSubsetMateSelectionProblem")
+                nn = min(n, 4)
+                H = np.array([[rng.randrange(2) for _ in range(p)] for _ in range(nn)], dtype="int8")
+                pg = DensePhasedGenotypeMatrix(np.stack([H, H]), taxa=np.array(names[:nn], dtype=object), taxa_grp=np.zeros(nn, dtype="int64"),
+                                               vrnt_chrgrp=np.array([1] * (p // 2) + [2] * (p - p // 2), dtype="int64"),
+                                               vrnt_phypos=np.arange(1, p + 1, dtype="int64"), vrnt_genpos=np.linspace(0.0, 1.0, p),
+                                               vrnt_xoprob=np.full(p, 0.1))
+                pg.group_vrnt()
+                uniq = rng.random() < 0.5 and nn >= K
+                pct = rng.choice([0.1, 0.25, 0.5]); ns = rng.choice([0, 1])
+                nx = len(cls._calc_xmap(nn, K, uniq))
+                pr = cls.from_pgmat_gpmod(K, 1, 10, ns, pct, F(), HaldaneMapFunction(), uniq, pg, model, ndecn=1, decn_space=np.arange(nx),
+                                          decn_space_lower=np.repeat(0, 1), decn_space_upper=np.repeat(nx - 1, 1), nobj=T)
+                xm = np.asarray(pr.decn_space_xmap); U = np.asarray(pr.ucmat, dtype=float)
+                inten = scipy.stats.norm.pdf(scipy.stats.norm.ppf(1.0 - pct)) / pct
+                V = np.asarray(F().from_gmod(gmod=model, pgmat=pg, ncross=1, nprogeny=10, nself=ns, gmapfn=HaldaneMapFunction()).mat, dtype=float)
+                g = 1.0 + 2.0 * H.astype(float) @ u
+                shares = np.array([0.5, 0.5] if K == 2 else [0.5, 0.25, 0.25])
+                exp = np.array([shares @ g[list(r_), :] + inten * np.sqrt(V[tuple(r_) + (slice(None),)]) for r_ in xm])
+                case["d"] = g.astype(int).tolist(); case["c"] = [1] * nn
+                case["dataok"] = bool(U.shape == exp.shape and np.allclose(U, exp, atol=1e-9))
             elif which == "ohv.from_pgmat_gpmod":
                 # identical inbred lines on a map with marker deserts (equal-width blocks stay empty): whatever the blocks
                 # are, the optimal haploid value of any cross of clones is the clone's own value; with distinct lines it
@@ -339,7 +371,8 @@ def run(ctx):
             allc.append(one_case(len(allc) + 1, fam, rng, ksel=ksel))
     for _ in range(reps * 2):
         allc.append(pafd_case(len(allc) + 1, rng))
-    for which in ("ebv.from_bvmat", "gebv.from_gmat_gpmod", "ocs.from_bvmat_gmat", "mgr.from_gmat", "embv.from_pgmat_gpmod", "ohv.from_pgmat_gpmod"):
+    for which in ("ebv.from_bvmat", "gebv.from_gmat_gpmod", "ocs.from_bvmat_gmat", "mgr.from_gmat", "embv.from_pgmat_gpmod", "ohv.from_pgmat_gpmod",
+                  "uc2.from_pgmat_gpmod", "uc3.from_pgmat_gpmod"):
         for _ in range(reps):
             allc.append(factory_case(len(allc) + 1, which, rng))
     verd = cases.validate(ctx, "SelObjective_Trace", "SelObjective_Trace.cfg",
